@@ -116,7 +116,10 @@ RECURSIVE ExecObj(_, _, _)
 \* value of resolving field f on an object of concrete type objT
 Resolve(objT, f) ==
   CASE f = "__typename" -> [k |-> "str", v |-> objT]
-    [] f = "a" -> IF world.errA /\ objT # "Query" THEN [k |-> "err"] ELSE [k |-> "int"]
+    \* `a` takes an optional argument whose DEFAULT each type declares for itself (I: 0, Obj: 1, Obj2: 2 and a further optional argument,
+    \* Query: 0 - legal: implementations may add optional arguments and choose their own defaults); no document passes the argument,
+    \* so the value depends on the runtime type the field node is executed for ("of"), also when ONE node serves several types
+    [] f = "a" -> IF world.errA /\ objT # "Query" THEN [k |-> "err"] ELSE [k |-> "int", of |-> objT]
     [] f = "s" -> IF world.nullS THEN [k |-> "null"] ELSE [k |-> "strv"]
     [] f = "n" -> [k |-> "strv"]
     [] f = "e" -> [k |-> "enumname"]            \* resolver returns the internal value, the response carries the name
